@@ -83,6 +83,7 @@ struct Scope {
 }
 
 struct FnCtx {
+    name: String,
     ret: Ty,
     rank: u32,
     /// (name of the function, name of its budget parameter, remaining recursive call sites)
@@ -113,6 +114,8 @@ pub struct Gen<'r> {
     budget: i32,
     depth: usize,
     called: Vec<String>,
+    /// signature the next generated function must have (shadowing definitions)
+    force_sig: Option<(Vec<Ty>, Ty)>,
     pub stats: GenStats,
 }
 
@@ -135,6 +138,7 @@ pub fn generate(rng: &mut Rng, profile: Profile) -> (Program, GenStats) {
         budget: 0,
         depth: 0,
         called: Vec::new(),
+        force_sig: None,
         stats: GenStats {
             shadowings: 0,
             captures: 0,
@@ -165,6 +169,14 @@ impl Gen<'_> {
     }
 
     fn var_name(&mut self, ty: &Ty) -> String {
+        if matches!(self.profile, Profile::Scope | Profile::Array) && self.rng.chance(1, 2) && matches!(ty, Ty::Arr(_)) {
+            // arrays share a few names too, so that a nested receiver `q[0].push(..)` in a callee and
+            // a same-named array of its caller can be confused by a by-name lookup
+            let cand = *self.rng.pick(&["q", "u", "w"]);
+            if self.may_declare_as(cand, ty) {
+                return cand.to_string();
+            }
+        }
         if self.profile == Profile::Scope && self.rng.chance(3, 4) && matches!(ty, Ty::Num | Ty::Str) {
             // few names, reused everywhere and at different types in different scopes; within
             // one block a name keeps its type (a same-block `make` rebinds the same variable)
@@ -176,8 +188,7 @@ impl Gen<'_> {
             } else {
                 *self.rng.pick(&["a", "b", "c", "s", "t"])
             };
-            let clash = self.scopes.last().unwrap().vars.iter().any(|v| v.name == cand && &v.ty != ty);
-            if !clash {
+            if self.may_declare_as(cand, ty) {
                 return cand.to_string();
             }
         }
@@ -191,6 +202,23 @@ impl Gen<'_> {
             Ty::Cmd => "c",
         };
         self.fresh_name(prefix)
+    }
+
+    /// May `make <name>` declare a value of type `ty` in the current block? Yes if the block does
+    /// not have the name yet, or has it at the same type; a same-block re-declaration at another
+    /// type is documented too, but only generated when no visible function mentions the name
+    /// (its body was generated against the old type).
+    fn may_declare_as(&self, name: &str, ty: &Ty) -> bool {
+        let Some(existing) = self.scopes.last().unwrap().vars.iter().find(|v| v.name == name) else {
+            return true;
+        };
+        if &existing.ty == ty {
+            return !existing.frozen;
+        }
+        if existing.frozen || existing.fixed {
+            return false;
+        }
+        !self.visible_fns().iter().any(|f| f.captures.iter().any(|c| c == name))
     }
 
     fn all_vars(&self) -> Vec<VarInfo> {
@@ -230,11 +258,15 @@ impl Gen<'_> {
     }
 
     fn callable(&self, ret: Option<&Ty>) -> Vec<FnInfo> {
-        let mr = self.min_rank();
+        // A function may call every *complete* function: bodies only ever call functions that were
+        // complete when they were generated, so the call graph is acyclic apart from the budgeted
+        // recursion. Functions being generated right now (and their mutual-recursion partners)
+        // are reachable only through the budgeted path in `try_call`.
+        let in_progress: Vec<String> = self.fn_stack.iter().map(|c| c.name.clone()).collect();
         let partners: Vec<String> = self.fn_stack.iter().filter_map(|c| c.partner.clone()).collect();
         self.visible_fns()
             .into_iter()
-            .filter(|f| f.rank < mr && !partners.contains(&f.name) && ret.is_none_or(|r| &f.ret == r))
+            .filter(|f| !in_progress.contains(&f.name) && !partners.contains(&f.name) && ret.is_none_or(|r| &f.ret == r))
             .collect()
     }
 
@@ -554,15 +586,18 @@ impl Gen<'_> {
                     0 => {
                         let a = self.rng.range(-3, 6);
                         let b = self.rng.range(-3, 12);
-                        method(s, "slice", vec![num(a), num(b)])
+                        let b = if self.rng.chance(1, 4) { self.num_expr(depth + 2) } else { num(b) };
+                        method(s, "slice", vec![num(a), b])
                     }
                     1 => method(s, "to_uppercase", vec![]),
                     2 => method(s, "to_lowercase", vec![]),
                     3 => method(s, "trim", vec![]),
                     _ => {
-                        let from = *self.rng.pick(&["t", "1", "x", " ", "é", "2", "-"]);
-                        let to = self.str_text();
-                        method(s, "replace", vec![plain(from), plain(&to.replace(['{', '}'], ""))])
+                        // arguments are evaluated after the receiver: they may call functions that
+                        // reassign the very variable the receiver was read from
+                        let from = if self.rng.chance(1, 3) { self.str_expr(depth + 2) } else { plain(self.rng.pick(&["t", "1", "x", " ", "é", "2", "-"])) };
+                        let to = if self.rng.chance(1, 3) { self.str_expr(depth + 2) } else { plain(&self.str_text().replace(['{', '}'], "")) };
+                        method(s, "replace", vec![from, to])
                     }
                 }
             }
@@ -700,6 +735,20 @@ impl Gen<'_> {
             Profile::Array | Profile::Mem => self.rng.range(0, 2),
             _ => self.rng.range(0, 2),
         };
+        if self.depth >= 1 && self.depth <= 2 && self.budget > 4 && self.rng.chance(1, if self.profile == Profile::Scope { 3 } else { 10 }) {
+            // An inner definition that shadows a visible outer function. It is generated before
+            // anything else of this block exists (so nothing in the block was bound to the outer
+            // one) and has the same signature, so every call site type-checks against either.
+            let here: Vec<String> = self.scopes.last().unwrap().fns.iter().map(|f| f.name.clone()).collect();
+            let cands: Vec<FnInfo> = self.callable(None).into_iter().filter(|f| !f.recursive && !here.contains(&f.name)).collect();
+            if !cands.is_empty() {
+                let f = self.rng.pick(&cands).clone();
+                self.force_sig = Some((f.params.clone(), f.ret.clone()));
+                self.stats.shadowings += 1;
+                let def = self.func_def_named(f.name.clone(), false, None);
+                hoisted.push(def);
+            }
+        }
         if self.depth <= 2 && self.budget > 4 {
             for _ in 0..want_fns {
                 if self.rng.chance(1, 5) && self.depth <= 1 {
@@ -732,9 +781,9 @@ impl Gen<'_> {
         if !terminated {
             // most functions defined here get at least one call
             let mine: Vec<FnInfo> = self.scopes.last().unwrap().fns.clone();
-            let mr = self.min_rank();
+            let ok: Vec<String> = self.callable(None).into_iter().map(|f| f.name).collect();
             for f in mine {
-                if f.rank < mr && !self.called.contains(&f.name) && self.rng.chance(6, 7) {
+                if ok.contains(&f.name) && !self.called.contains(&f.name) && self.rng.chance(6, 7) {
                     let c = self.call_expr(&f, 1);
                     out.push(if f.ret == Ty::Null { Stmt::Expr(c) } else { shout(c) });
                 }
@@ -979,7 +1028,46 @@ impl Gen<'_> {
         true
     }
 
+    /// `r[f() ...]` where the (complete) function f mentions the array r itself: the array operand
+    /// is read before the index expression runs.
+    fn index_with_side_effect(&mut self, out: &mut Vec<Stmt>) -> bool {
+        let arrs: Vec<VarInfo> = self.all_vars().into_iter().filter(|v| matches!(v.ty, Ty::Arr(_))).collect();
+        for v in arrs {
+            let fs: Vec<FnInfo> = self.callable(Some(&Ty::Num)).into_iter().filter(|f| f.captures.contains(&v.name)).collect();
+            if fs.is_empty() {
+                continue;
+            }
+            let f = self.rng.pick(&fs).clone();
+            let c = self.call_expr(&f, 1);
+            let idx = bin(BinOp::Mod, method(method(c, "abs", vec![]), "floor", vec![]), method(var(&v.name), "len", vec![]));
+            let read = Expr::Index(Box::new(var(&v.name)), Box::new(idx));
+            out.push(Stmt::If {
+                cond: bin(BinOp::Gt, method(var(&v.name), "len", vec![]), num(0)),
+                then_b: Block { stmts: vec![shout(read)] },
+                else_b: None,
+            });
+            return true;
+        }
+        // no such function yet: use the array's own pop as the index source
+        let nums: Vec<VarInfo> = self.all_vars().into_iter().filter(|v| v.ty == Ty::arr(Ty::Num) && !v.fixed).collect();
+        if nums.is_empty() {
+            return false;
+        }
+        let v = self.rng.pick(&nums).clone();
+        // a[(a.pop() times 0)]: index 0 of the array as it was *before* the pop
+        let idx = bin(BinOp::Times, method(var(&v.name), "pop", vec![]), num(0));
+        out.push(Stmt::If {
+            cond: bin(BinOp::Gt, method(var(&v.name), "len", vec![]), num(0)),
+            then_b: Block { stmts: vec![shout(Expr::Index(Box::new(var(&v.name)), Box::new(idx)))] },
+            else_b: None,
+        });
+        true
+    }
+
     fn volatile_read(&mut self, out: &mut Vec<Stmt>) -> bool {
+        if self.rng.chance(1, 3) && self.index_with_side_effect(out) {
+            return true;
+        }
         let arrs: Vec<VarInfo> = self
             .all_vars()
             .into_iter()
@@ -1225,9 +1313,11 @@ impl Gen<'_> {
             5 => Ty::Cmd,
             _ => Ty::arr(if self.rng.chance(1, 2) { Ty::Num } else { Ty::Str }),
         };
-        let (ret, mut ptys): (Ty, Vec<Ty>) = match &partner {
-            Some((_, info)) => (info.ret.clone(), info.params.clone()),
-            None => {
+        let forced = self.force_sig.take();
+        let (ret, mut ptys): (Ty, Vec<Ty>) = match (&partner, forced) {
+            (Some((_, info)), _) => (info.ret.clone(), info.params.clone()),
+            (None, Some((p, r))) => (r, p),
+            (None, None) => {
                 let n = self.rng.range(0, 3) as usize;
                 let mut ptys = Vec::new();
                 for _ in 0..n {
@@ -1274,6 +1364,7 @@ impl Gen<'_> {
             None
         };
         self.fn_stack.push(FnCtx {
+            name: name.clone(),
             ret: ret.clone(),
             rank,
             rec,
